@@ -21,6 +21,7 @@ type smSession struct {
 	ssc    []byte
 	origin string
 	enc    cipher.Block
+	do85PI bool // DO'85' carries the padding-content indicator (Transport.DO85PaddingIndicator)
 }
 
 func newSMSession(alg CipherAlg, ksEnc, ksMac, ssc []byte, origin string) (*smSession, error) {
@@ -119,7 +120,7 @@ func (s *smSession) unwrap(cmd *Command) (plain *Command, swv uint16, reason str
 	plain = &Command{CLA: cmd.CLA &^ 0x0C, INS: cmd.INS, P1: cmd.P1, P2: cmd.P2, Extended: cmd.Extended, Case: "SM"}
 	if do8587 != nil {
 		ct := do8587.Value
-		if do8587.Tag == 0x87 {
+		if do8587.Tag == 0x87 || s.do85PI {
 			// padding-content indicator 01: padded per ISO/IEC 7816-4 (= 9797-1 method 2)
 			if len(ct) < 1 || ct[0] != 0x01 {
 				return nil, SWSMIncorrectDO, "DO'87' padding indicator is not 01"
@@ -169,7 +170,7 @@ func (s *smSession) protectedLen(plain *Command, n int) int {
 	if n > 0 {
 		bs := blockSizeOf(s.alg)
 		v := (n/bs + 1) * bs
-		if plain.INS%2 == 0 {
+		if plain.INS%2 == 0 || s.do85PI {
 			v++
 		}
 		total += 1 + len(encodeLen(v)) + v
@@ -204,6 +205,8 @@ func (s *smSession) wrap(plain *Command, data []byte, swv uint16) []byte {
 		}
 		if plain.INS%2 == 0 {
 			body = append(body, EncodeTLV(0x87, []byte{0x01}, ct)...)
+		} else if s.do85PI {
+			body = append(body, EncodeTLV(0x85, []byte{0x01}, ct)...)
 		} else {
 			body = append(body, EncodeTLV(0x85, ct)...)
 		}
